@@ -166,6 +166,13 @@ impl Check for ListLaws {
         if pairs_ok {
             keyfns.push(("p => p[0]", Box::new(first)));
         }
+        // key functions that could take more than the element are still called with the element alone
+        keyfns.push(("(x, i?) => if i == null then x else 0", Box::new(|x: &MV| x.clone())));
+        keyfns.push(("(...r) => if len(r) == 1 then r[0] else 0", Box::new(|x: &MV| x.clone())));
+        if l.iter().all(|x| matches!(x, MV::Num(F(v)) if v.is_finite())) {
+            keyfns.push(("round", Box::new(|x: &MV| match x { MV::Num(F(v)) => num(v.round()), o => o.clone() })));
+            keyfns.push(("max", Box::new(|x: &MV| x.clone())));
+        }
         if l.iter().all(|x| matches!(x, MV::Num(_))) {
             keyfns.push(("x => -x", Box::new(|x: &MV| match x { MV::Num(F(v)) => num(-v), o => o.clone() })));
             keyfns.push(("x => x % 3", Box::new(|x: &MV| match x { MV::Num(F(v)) => num(v % 3.0), o => o.clone() })));
@@ -315,6 +322,10 @@ impl Check for ListLaws {
             want(&sess, "group_by", cls, &format!("group_by(l, {})", fsrc), &exp_g)?;
             want(&sess, "count_by", cls, &format!("count_by(l, {})", fsrc), &exp_c)?;
             want(&sess, "count_by:sums-to-len", cls, &format!("sum([0, ...values(count_by(l, {}))])", fsrc), &num(len as f64))?;
+            // a key function with a spare optional parameter is called with the element alone
+            let opt = format!("(e, spare?) => if spare == null then ({})(e) else \"called with two arguments\"", fsrc);
+            want(&sess, "group_by:optional-parameter", cls, &format!("group_by(l, {})", opt), &exp_g)?;
+            want(&sess, "count_by:optional-parameter", cls, &format!("count_by(l, {})", opt), &exp_c)?;
         }
         Ok(())
     }
